@@ -27,7 +27,10 @@ META = {
              "diffed against the implementation (JSON->MessagePack, bytes and verdict, both modes) and PROVED to agree for every "
              "UTF-8-valid byte string outside the known class K-C02-json-adjacent-scalars (formalised as 'the slice loop stops "
              "with trailing characters', with a witness lemma on which the property does fail); inside the class and for invalid "
-             "UTF-8 the slice output is proved to be a prefix of the reader output. The oracle compares "
+             "UTF-8 the slice output is proved to be a prefix of the reader output. For TOML input xt's own part is proved too: "
+             "toml::transcode turns the handle into one owned byte string and applies the UTF-8 check, the parser and the writer to it - "
+             "whatever those compute, they are applied to exactly the input bytes in both supply modes, named or after any detection "
+             "(C02_toml_same_text_both_modes; no premise about the toml crate). The oracle compares "
              "translate_slice with translate_reader under 1-byte, fixed, random and adversarially cut schedules for every token "
              "sequence up to length 5/4/4 (thorough 6/5/5) over a JSON/YAML/MessagePack alphabet, and for the corpus, its "
              "mutations, truncations and splices, generated documents and random bytes, for each explicit source format and "
